@@ -27,7 +27,7 @@ func init() {
 			"Oracles: ReplayWALDir returns P ++ T with P exactly the entries that end before the first damaged byte (plus all entries of earlier files) and every element of T byte-identical to an " +
 			"appended entry at or after the damage, at most once; NewEngineFacade succeeds, no key outside the appended set, every key reads as one of its appended writes not older than its last " +
 			"write in the intact prefix or in an undamaged file, no log file moved away; then 3 more acknowledged writes, close, reopen: they must be present. " +
-			"distinct = (fault kind, offset class, log shape); non-trivial = the fault changed at least one byte inside the byte range of a unit",
+			"Ten corruptions per file are aimed at MIDDLE/LAST fragments; every 10th case is the constructed aligned-skip log (large entry, exactly 32KB of 1KB records, large entry, one byte of a later fragment of the first changed). distinct = (fault kind, offset class, log shape); non-trivial = the fault changed at least one byte inside the byte range of a unit",
 		Assumptions: []string{"the order among survivors of the damaged region is recorded but not judged (the statement promises the intact prefix and 'nothing that was not appended')",
 			"the full appended entry list (with sequence numbers) is read back from the undamaged log (fidelity of that read-back is C09's business)"},
 		NumCases: func(tier string) int {
